@@ -1,5 +1,5 @@
 """property id -> check function(prop, tier, replay) -> exit code"""
-from . import router, reg, selector, framing, rpc, transcode, registry_chk, mount
+from . import router, reg, selector, framing, rpc, transcode, registry_chk, mount, deadline
 
 CHECKS = {
     "C01": router.run,
@@ -14,6 +14,7 @@ CHECKS = {
     "C18": rpc.run,
     "C11": registry_chk.run,
     "C12": registry_chk.run,
+    "C15": deadline.run,
     "C16": reg.run,
     "C17": framing.run,
     "C19": selector.run,
